@@ -156,7 +156,12 @@ fn op_strategy(p: &GenParams) -> BoxedStrategy<Op> {
             .prop_map(|(start, n, val)| Op::Fill { start, n, val })
             .boxed(),
     );
-    add(w.hammer, (sel(), 0u8..30).prop_map(|(k, n)| Op::Hammer(k, n)).boxed());
+    add(
+        w.hammer,
+        (sel(), 0u8..30, any::<bool>())
+            .prop_map(|(k, n, iter)| if iter { Op::IterHammer(k, n) } else { Op::Hammer(k, n) })
+            .boxed(),
+    );
     add(w.reopen, cfg_strategy().prop_map(Op::Reopen).boxed());
     add(w.snap, Just(Op::Snap).boxed());
     add(w.release, sel().prop_map(Op::Release).boxed());
@@ -216,14 +221,14 @@ fn chunk_strategy(p: &GenParams) -> BoxedStrategy<Vec<Op>> {
         })
         .boxed();
     // disjoint single-key flushes followed by repeated gets: trivial moves / seek compactions
-    let disjoint = (prop::collection::vec((sel(), v()), 2..5), sel(), 0u8..30)
-        .prop_map(|(ks, h, n)| {
+    let disjoint = (prop::collection::vec((sel(), v()), 2..5), sel(), 0u8..30, any::<bool>())
+        .prop_map(|(ks, h, n, iter)| {
             let mut o = vec![];
             for (k, val) in ks {
                 o.push(Op::Put(k, val));
                 o.push(Op::Flush);
             }
-            o.push(Op::Hammer(h, n));
+            o.push(if iter { Op::IterHammer(h, n) } else { Op::Hammer(h, n) });
             o.push(Op::WaitIdle);
             o
         })
@@ -290,7 +295,7 @@ fn chunk_strategy(p: &GenParams) -> BoxedStrategy<Vec<Op>> {
             if manual {
                 o.push(Op::Compact(Some(c), hi));
             } else {
-                o.push(Op::Hammer(c, 120));
+                o.push(if extra == 1 { Op::IterHammer(c, 120) } else { Op::Hammer(c, 120) });
                 o.push(Op::WaitIdle);
             }
             o.push(Op::Get(u));
